@@ -273,6 +273,11 @@ class ContainerCalls:
                 break
         if isinstance(results, Num):
             results = replace(results, sym=fold_sym, const=None)
+            if I.shift_mode:
+                from . import shift
+
+                en2 = I.as_num(elem)
+                results = replace(results, wt=shift.fold_sum(I, en2, s.length.term, node) if (additive and en2 is not None) else None)
         return results
 
     # ==================================================================================
